@@ -381,6 +381,42 @@ func TestVerifC33(t *testing.T) {
 	var totalStates int64
 	closed := 0
 	perCfg := map[string]any{}
+	// Recycled-item cache at its capacity: really add and purge timerCacheMax+3 items (3 are dropped at the cap), then
+	// search a few steps from there. Every replay repeats the whole prefix on a fresh wheel.
+	cacheCfg := c33Cfg{2, 6}
+	var prefix []c33Ev
+	for i := 0; i < timerCacheMax+3; i++ {
+		prefix = append(prefix, c33Ev{'I', int64(1 + i%7)})
+	}
+	prefix = append(prefix, c33Ev{'A', 5 * 2}, c33Ev{'F', 0})
+	if !c.OutOfTime() {
+		res := mc.BFSReplay(c, mc.BFSConfig[c33Ev]{
+			MaxDepth: mc.Pick(c, 2, 5), // every replay costs a 50003-item burst: depth-bounded
+			Label:    c33Label,
+			Stop:     func() bool { return c.OutOfTime() || c.Violations() > 200 },
+			Run: func(hist []c33Ev) (string, []c33Ev) {
+				w := c33NewWorld(c, cacheCfg, stat)
+				defer w.flush()
+				for _, e := range prefix {
+					if !w.apply(e) {
+						return "broken-prefix", nil
+					}
+				}
+				if len(w.live) != 0 {
+					w.violation("items of a 50003-item burst are still outstanding after advancing a full span plus two ticks and PurgeAll", map[string]any{"outstanding": len(w.live)})
+				}
+				w.trace = []string{fmt.Sprintf("(prefix: %d Adds, Advance(+10), PurgeAll)", timerCacheMax+3)}
+				for _, e := range hist {
+					if !w.apply(e) {
+						return "broken:" + strings.Join(w.trace, " "), nil
+					}
+				}
+				return w.key(), c33Menu(cacheCfg, int64(w.tw.wheelLen), len(w.live), maxLive)
+			},
+		})
+		perCfg["cache-at-capacity "+cacheCfg.String()] = map[string]any{"states": res.States, "transitions": res.Transitions, "max_depth": res.MaxDepth}
+	}
+
 	for _, cfg := range cfgs {
 		cfg := cfg
 		res := mc.BFSReplay(c, mc.BFSConfig[c33Ev]{
@@ -406,42 +442,6 @@ func TestVerifC33(t *testing.T) {
 		if c.OutOfTime() {
 			break
 		}
-	}
-
-	// Recycled-item cache at its capacity: really add and purge timerCacheMax+3 items (3 are dropped at the cap), then
-	// search a few steps from there. Every replay repeats the whole prefix on a fresh wheel.
-	cacheCfg := c33Cfg{2, 6}
-	var prefix []c33Ev
-	for i := 0; i < timerCacheMax+3; i++ {
-		prefix = append(prefix, c33Ev{'I', int64(1 + i%7)})
-	}
-	prefix = append(prefix, c33Ev{'A', 5 * 2}, c33Ev{'F', 0})
-	if !c.OutOfTime() {
-		res := mc.BFSReplay(c, mc.BFSConfig[c33Ev]{
-			MaxDepth: mc.Pick(c, 2, 64), // thorough: until the frontier is empty (or the budget ends)
-			Label:    c33Label,
-			Stop:     func() bool { return c.OutOfTime() || c.Violations() > 200 },
-			Run: func(hist []c33Ev) (string, []c33Ev) {
-				w := c33NewWorld(c, cacheCfg, stat)
-				defer w.flush()
-				for _, e := range prefix {
-					if !w.apply(e) {
-						return "broken-prefix", nil
-					}
-				}
-				if len(w.live) != 0 {
-					w.violation("items of a 50003-item burst are still outstanding after advancing a full span plus two ticks and PurgeAll", map[string]any{"outstanding": len(w.live)})
-				}
-				w.trace = []string{fmt.Sprintf("(prefix: %d Adds, Advance(+10), PurgeAll)", timerCacheMax+3)}
-				for _, e := range hist {
-					if !w.apply(e) {
-						return "broken:" + strings.Join(w.trace, " "), nil
-					}
-				}
-				return w.key(), c33Menu(cacheCfg, int64(w.tw.wheelLen), len(w.live), maxLive)
-			},
-		})
-		perCfg["cache-at-capacity "+cacheCfg.String()] = map[string]any{"states": res.States, "transitions": res.Transitions, "max_depth": res.MaxDepth}
 	}
 
 	// Vacuity guards: items really came out, some exactly when allowed-ish and some late in the allowed slack, capped and
